@@ -631,13 +631,52 @@ func ruleTBPenalty(r *core.Reporter) {
 		s int
 	}
 	var armEdges []edge
+	tableArm := func(slice, v ssa.Value, ii ir.IfInfo) {
+		if resolveParam(v, 0) == nil {
+			return
+		}
+		ld, isLd := ir.Strip(slice).(*ssa.UnOp)
+		if !isLd || ld.Op != token.MUL {
+			return
+		}
+		g, isG := ld.X.(*ssa.Global)
+		if !isG {
+			return
+		}
+		if tab, okT := globalIntTable(p, g); okT {
+			hit := false
+			for _, c := range tab {
+				if _, want := wantCodes[c]; want {
+					wantCodes[c] = true
+					hit = true
+				}
+			}
+			if hit {
+				armEdges = append(armEdges, edge{ii.If.Block(), ii.EdgeWhen(true)})
+			}
+		}
+	}
 	for _, ii := range ir.Ifs(af) {
 		a := ii.Atom
+		// slices.Contains(table, statusCode) where the canonicaliser could not inline it (switch case)
+		if a.V != nil {
+			if c, isC := ir.Strip(a.V).(*ssa.Call); isC && len(c.Call.Args) == 2 {
+				if f := ir.CalleeOf(c.Common()); f != nil && (strings.HasPrefix(f.Name(), "zzcanonContains") || strings.HasPrefix(ir.FullName(f), "slices.Contains[")) && !strings.Contains(f.Name(), "Func") {
+					tableArm(c.Call.Args[0], c.Call.Args[1], ii)
+				}
+			}
+		}
 		if a.V == nil && a.Op == token.EQL {
 			if c, ok := ir.ConstInt(a.Y); ok {
 				if _, want := wantCodes[c]; want && resolveParam(a.X, 0) != nil {
 					wantCodes[c] = true
 					armEdges = append(armEdges, edge{ii.If.Block(), ii.EdgeWhen(true)})
+				}
+			}
+			// table form: statusCode == codes[i] over a constant, never-written package table
+			for _, pair := range [][2]ssa.Value{{a.X, a.Y}, {a.Y, a.X}} {
+				if sl, _, isEl := elemLoad(ir.Strip(pair[1])); isEl {
+					tableArm(sl, pair[0], ii)
 				}
 			}
 		}
